@@ -15,6 +15,12 @@ def make_job(rng, idx, quick):
     N = rng.choice([0, 1, 2, 17, 1000, 4096, 30000]) if rng.chance(.4) else rng.below(40000 if quick else 300000)
     cap = 150000 if quick else 2000000
     N = min(N, int(cap * max(1.0, cr.io_ratio(cfg))), int(cap * cr.io_ratio(cfg)) + 3)
+    if idx >= len(GRID) and rng.chance(.04):
+        # soxr_runtime_spec(0): the channels of one call are processed by OpenMP threads.  A few such jobs only, with a small team that
+        # sleeps while idle (many processes with spinning full-size teams starve each other)
+        cfg["ch"] = 2 + rng.below(3); cfg["threads"] = 0
+        env = dict(env, OMP_NUM_THREADS="4", OMP_WAIT_POLICY="PASSIVE")
+        N = min(max(N, 20000), 60000)
     return {"cfg": cfg, "env": env, "N": N, "seed": rng.next() & 0xffffffff, "idx": idx}
 
 
